@@ -12,6 +12,7 @@
 //          waitflag:<f>   setflag:<f>     resetowner  (drop main's shared_ptr from inside this callback context)
 //       application ops:
 //          recv:<sid>:<buflen>:<timeoutMs>   mode:<sid>:<sync|async|disabled>   csync:<timeoutMs>   connect (async)
+//          ccsync:<timeoutMs> (connectSyncCancellable with the case's token)   cancel (that token)
 //          observe:<sid>:<tag>  unobserve:<tag>  setdata:<sid>:<tag>  close:<sid>  send:<sid>  listen
 //          waitflag:<f>  setflag:<f>  sleep:<ms>  waitlast:<thread> (until that thread is in flight inside a gate-counted call)
 //          stop  destroy (main only; waits until every other application thread is parked in a blocking call or done)
@@ -178,6 +179,7 @@ struct World
   std::map<SessionId, long> nextByte;    // per session: id of the next byte the engine delivers
   std::map<std::string, ObserverId> obsIds;
   std::atomic<bool> destroyed{false};
+  CancellationToken token;
   std::atomic<bool> armReset{false};
   std::atomic<bool> gcbDone{false}; // the next global close callback releases the (sole) owner from inside the callback
   long long vms() { return vf::virtualAdvanceNs() / 1000000LL; }
@@ -540,6 +542,22 @@ static void appOps(World *w, const ThreadProg &tp, std::vector<std::thread> *oth
       // flag is not consulted)
       w->tr.add(vf::Ev("ConnRet").str("t", tp.name).b("ok", r.isOk()).i("s", r.isOk() ? (long long)r.value() : 0)
                   .str("err", r.isOk() ? "-" : errName(r.error().code)).i("vt", w->vms()).i("uj", vf::unfairJumps()));
+    }
+    else if (op == "ccsync")
+    {
+      // connectSyncCancellable with the world's token (sub-attempts of at most 100 ms each; "cancel" on another thread)
+      int to = atoi(f[1].c_str());
+      w->tr.add(vf::Ev("ConnCall").str("t", tp.name).i("to", to).i("vt", w->vms()).i("uj", vf::unfairJumps()));
+      auto cs = w->flags.find("__csync:" + tp.name);
+      if (cs != w->flags.end()) cs->second.store(true);
+      auto r = t->connectSyncCancellable("127.0.0.1", 1, w->token, TlsMode::None, std::chrono::milliseconds(to));
+      w->tr.add(vf::Ev("ConnRet").str("t", tp.name).b("ok", r.isOk()).i("s", r.isOk() ? (long long)r.value() : 0)
+                  .str("err", r.isOk() ? "-" : errName(r.error().code)).i("vt", w->vms()).i("uj", vf::unfairJumps()));
+    }
+    else if (op == "cancel")
+    {
+      w->tr.add(vf::Ev("CancelCall").str("t", tp.name).i("vt", w->vms()));
+      w->token.cancel();
     }
     else if (op == "connect")
     {
